@@ -1029,9 +1029,10 @@ def rule_P7(ctx):
     # order: recursion into subdirectories happens before this level is flushed and set_level clears the list:
     mg = ST
     add = ctx.fn(mg, "ExportManager.add_sample", "P7")
-    ctx.ob("P7", add, "add_sample appends to the level's list", "self.samples.append(sample)" in full(add), "", inst="add_sample")
+    from .util import every_path_calls as _epc, path_call_keys as _pck
+    ctx.ob("P7", add, "add_sample appends to the level's list", _epc(ctx, add, "P7", f"self.samples.append({add.args.args[1].arg})"), "", inst="add_sample")
     fl = ctx.fn(mg, "ExportManager.finish_level", "P7")
-    ctx.ob("P7", fl, "finish_level exports the collected samples", "self.export_samples()" in full(fl), "", inst="finish_level")
+    ctx.ob("P7", fl, "finish_level exports the collected samples", _epc(ctx, fl, "P7", "self.export_samples()"), "", inst="finish_level")
     es = ctx.fn(mg, "ExportManager.export_samples", "P7")
     ecfg = ctx.cfg(es, "P7")
     fors = sorted([f for f in own_nodes(es) if isinstance(f, ast.For)], key=lambda f: f.lineno)
@@ -1073,12 +1074,18 @@ def rule_P7(ctx):
             ctx.ob("P7", fors[1], "each sample is written once and reported once (`Exported` after the write), on every path", ok, f"{calls}", inst=f"write-report:{calls.count('os.makedirs')}")
         ok = not any(isinstance(n, (ast.Break, ast.Continue, ast.Return)) for n in ast.walk(fors[1]))
         ctx.ob("P7", fors[1], "no sample of the level is skipped", ok, "", inst="no-skip")
-    ok = "self.samples.clear()" in full(es)
+    # on every normal path the list is cleared, and after the last write
+    ok = True
+    for ks_ in _pck(ctx, es, "P7"):
+        idx_c = [i_ for i_, k_ in enumerate(ks_) if k_ == "self.samples.clear()"]
+        idx_w = [i_ for i_, k_ in enumerate(ks_) if k_.startswith("export_wav(")]
+        ok = ok and bool(idx_c) and (not idx_w or max(idx_w) < idx_c[-1])
     ctx.ob("P7", es, "the level's list is cleared after export", ok, "", inst="clear-after")
     sl = ctx.fn(mg, "ExportManager.set_level", "P7")
-    ctx.ob("P7", sl, "set_level starts a fresh list", "self.samples.clear()" in full(sl), "", inst="clear-on-set")
+    ctx.ob("P7", sl, "set_level starts a fresh list", _epc(ctx, sl, "P7", "self.samples.clear()"), "", inst="clear-on-set")
     # ordering issue: a parent's samples are collected before child directories run set_level? record what the code does
     act = ctx.fn("smpl_extract/actions.py", "export_samples_to_wav", "P7")
-    t = full(act)
-    ok = "'combine_stereo': image.combine_stereo_routine" in t and "ExportManager(base_dir, sample_routines)" in t and "image.export_samples(export_manager)" in t
+    ip_, bp_ = act.args.args[0].arg, act.args.args[1].arg
+    mgr = f"ExportManager({bp_},{{combine_stereo:{ip_}.combine_stereo_routine}})"
+    ok = _epc(ctx, act, "P7", mgr) and _epc(ctx, act, "P7", f"{ip_}.export_samples({mgr})")
     ctx.ob("P7", act, "export installs the stereo-pairing routine and exports from the image root into the destination", ok, "", inst="action")
